@@ -6,14 +6,17 @@ package main
 
 import (
 	"bufio"
+	"bytes"
 	"encoding/json"
 	"fmt"
 	"math/big"
 	"math/rand"
 	"os"
+	"os/exec"
 	"path/filepath"
 	"sort"
 	"strconv"
+	"strings"
 )
 
 // Out collects the two line streams and the meta data of one run.
@@ -24,6 +27,10 @@ type Out struct {
 	ans    *bufio.Writer
 	fo, fa *os.File
 	Meta   Meta
+	// lines of the case being run; written out when the next case begins, so that a crash of the
+	// process loses exactly the current case in both files
+	curOps, curAns []byte
+	from           int
 }
 
 // Violation is a property failure observed on the real code's own values.
@@ -52,9 +59,9 @@ type Meta struct {
 
 func newOut(dir, name string, seed int64, tier string) *Out {
 	must(os.MkdirAll(dir, 0o755))
-	fo, err := os.Create(filepath.Join(dir, name+".ops"))
+	fo, err := os.OpenFile(filepath.Join(dir, name+".ops"), os.O_APPEND|os.O_CREATE|os.O_WRONLY, 0o644)
 	must(err)
-	fa, err := os.Create(filepath.Join(dir, name+".go"))
+	fa, err := os.OpenFile(filepath.Join(dir, name+".go"), os.O_APPEND|os.O_CREATE|os.O_WRONLY, 0o644)
 	must(err)
 	return &Out{dir: dir, name: name, fo: fo, fa: fa,
 		ops: bufio.NewWriterSize(fo, 1<<20), ans: bufio.NewWriterSize(fa, 1<<20),
@@ -64,11 +71,42 @@ func newOut(dir, name string, seed int64, tier string) *Out {
 
 // Op writes one operation line and the code's answer to it.
 func (o *Out) Op(op string, answer string) {
-	o.ops.WriteString(op)
-	o.ops.WriteByte('\n')
-	o.ans.WriteString(answer)
-	o.ans.WriteByte('\n')
+	o.curOps = append(append(o.curOps, op...), '\n')
+	o.curAns = append(append(o.curAns, answer...), '\n')
 	o.Meta.Ops++
+}
+
+// CaseRng: every case draws from its own generator, derived from (seed, stream, case index), so
+// that case k is the same whether or not earlier cases ran in this process.
+func (o *Out) CaseRng(ci int) *rand.Rand {
+	return rand.New(rand.NewSource(o.Meta.Seed*1000003 + int64(len(o.name))*7919 + int64(ci)*104729))
+}
+
+func (o *Out) commit() {
+	o.ops.Write(o.curOps)
+	o.ans.Write(o.curAns)
+	o.curOps, o.curAns = o.curOps[:0], o.curAns[:0]
+	o.ops.Flush()
+	o.ans.Flush()
+}
+
+// BeginCase commits the previous case, records the case about to run (so that a crash of the whole
+// process can be attributed to it) and tells the stream whether to run it (false: already done
+// by an earlier child process — the stream must still have drawn the same random numbers).
+func (o *Out) BeginCase(ci int, c any) bool {
+	o.commit()
+	if ci < o.from {
+		return false
+	}
+	b, _ := json.Marshal(map[string]any{"index": ci, "case": c})
+	os.WriteFile(filepath.Join(o.dir, o.name+".cur"), b, 0o644)
+	// every case that runs is kept (one JSON object per line) so that a verdict on one of its
+	// observations can be turned into a replay file
+	if f, err := os.OpenFile(filepath.Join(o.dir, o.name+".cases.jsonl"), os.O_APPEND|os.O_CREATE|os.O_WRONLY, 0o644); err == nil {
+		f.Write(append(b, '\n'))
+		f.Close()
+	}
+	return true
 }
 
 func (o *Out) Count(k string)      { o.Meta.Counters[k]++ }
@@ -86,13 +124,13 @@ func (o *Out) Violate(v Violation) {
 }
 
 func (o *Out) Close() {
-	o.ops.Flush()
-	o.ans.Flush()
+	o.commit()
+	os.Remove(filepath.Join(o.dir, o.name+".cur"))
 	o.fo.Close()
 	o.fa.Close()
 	b, err := json.MarshalIndent(o.Meta, "", " ")
 	must(err)
-	must(os.WriteFile(filepath.Join(o.dir, o.name+".meta.json"), b, 0o644))
+	must(os.WriteFile(filepath.Join(o.dir, fmt.Sprintf("%s.meta.%d.json", o.name, o.from)), b, 0o644))
 }
 
 func must(err error) {
@@ -155,10 +193,136 @@ func main() {
 	if len(os.Args) > 3 {
 		replayFile = os.Args[3]
 	}
+	if os.Getenv("VERIF_CHILD") == "" {
+		parent(stream, dir, seed, tier)
+		return
+	}
 	o := newOut(dir, stream, seed, tier)
+	o.from = int(envInt("VERIF_FROM", 0))
 	rng := rand.New(rand.NewSource(seed*7919 + int64(len(stream))))
 	f(o, rng, tier == "thorough")
 	o.Close()
+}
+
+// parent runs the stream in child processes: a panic inside a goroutine started by the library
+// cannot be recovered and kills the child; the parent records it as a crash of the case that was
+// running and continues with the next case in a fresh child.
+func parent(stream, dir string, seed int64, tier string) {
+	must(os.MkdirAll(dir, 0o755))
+	for _, suf := range []string{".ops", ".go", ".cur", ".cases.jsonl"} {
+		os.Remove(filepath.Join(dir, stream+suf))
+	}
+	olds, _ := filepath.Glob(filepath.Join(dir, stream+".meta.*.json"))
+	for _, f := range olds {
+		os.Remove(f)
+	}
+	from := 0
+	var crashes []Violation
+	for attempt := 0; attempt < 40; attempt++ {
+		cmd := exec.Command(os.Args[0], os.Args[1:]...)
+		cmd.Env = append(os.Environ(), "VERIF_CHILD=1", "VERIF_FROM="+strconv.Itoa(from))
+		var stderr bytes.Buffer
+		cmd.Stderr = &stderr
+		cmd.Stdout = os.Stdout
+		err := cmd.Run()
+		if err == nil {
+			break
+		}
+		curPath := filepath.Join(dir, stream+".cur")
+		b, rerr := os.ReadFile(curPath)
+		if rerr != nil {
+			fmt.Fprintln(os.Stderr, "harness child failed before its first case:", err, tail(stderr.String(), 3000))
+			os.Exit(3)
+		}
+		var cur struct {
+			Index int             `json:"index"`
+			Case  json.RawMessage `json:"case"`
+		}
+		must(json.Unmarshal(b, &cur))
+		msg := tail(stderr.String(), 2500)
+		first := msg
+		if i := strings.Index(stderr.String(), "panic:"); i >= 0 {
+			first = stderr.String()[i:]
+			if j := strings.Index(first, "\n"); j > 0 {
+				first = first[:j]
+			}
+		} else if i := strings.Index(stderr.String(), "fatal error:"); i >= 0 {
+			first = stderr.String()[i:]
+			if j := strings.Index(first, "\n"); j > 0 {
+				first = first[:j]
+			}
+		}
+		crashes = append(crashes, Violation{Property: "C16", Clause: "process-crash", Sig: "C16|process-crash|" + crashSite(stderr.String()),
+			Detail: first + " || " + msg, Replay: map[string]any{"case": cur.Case, "stream": stream, "index": cur.Index}})
+		os.Remove(curPath)
+		from = cur.Index + 1
+	}
+	// merge the children's meta files
+	merged := Meta{Stream: stream, Seed: seed, Tier: tier, Nontrivial: map[string]int{}, Counters: map[string]int{}}
+	files, _ := filepath.Glob(filepath.Join(dir, stream+".meta.*.json"))
+	sort.Strings(files)
+	for _, f := range files {
+		b, err := os.ReadFile(f)
+		if err != nil {
+			continue
+		}
+		var m Meta
+		if json.Unmarshal(b, &m) != nil {
+			continue
+		}
+		merged.Cases += m.Cases
+		merged.Ops += m.Ops
+		for k, v := range m.Nontrivial {
+			merged.Nontrivial[k] += v
+		}
+		for k, v := range m.Counters {
+			merged.Counters[k] += v
+		}
+		merged.Samples = append(merged.Samples, m.Samples...)
+		merged.Violations = append(merged.Violations, m.Violations...)
+		merged.Notes = append(merged.Notes, m.Notes...)
+		if m.Rule != "" {
+			merged.Rule = m.Rule
+		}
+	}
+	merged.Violations = append(merged.Violations, crashes...)
+	merged.Counters["process-crashes"] = len(crashes)
+	if len(merged.Samples) > 5 {
+		merged.Samples = merged.Samples[:5]
+	}
+	// ops counted by the children include lines lost in a crash; recount from the file
+	if b, err := os.ReadFile(filepath.Join(dir, stream+".ops")); err == nil {
+		merged.Ops = bytes.Count(b, []byte{'\n'})
+	}
+	b, _ := json.MarshalIndent(merged, "", " ")
+	must(os.WriteFile(filepath.Join(dir, stream+".meta.json"), b, 0o644))
+}
+
+func tail(s string, n int) string {
+	if len(s) > n {
+		return s[len(s)-n:]
+	}
+	return s
+}
+
+// crashSite: the first frame of the trace inside the nextroute module (file:line), for signatures.
+func crashSite(trace string) string {
+	for _, line := range strings.Split(trace, "\n") {
+		line = strings.TrimSpace(line)
+		if strings.HasPrefix(line, "/repo/") || strings.Contains(line, "/nextroute/") {
+			if i := strings.Index(line, " "); i > 0 {
+				line = line[:i]
+			}
+			if j := strings.LastIndex(line, "/"); j >= 0 {
+				line = line[j+1:]
+			}
+			if k := strings.Index(line, ":"); k > 0 {
+				return line[:k]
+			}
+			return line
+		}
+	}
+	return "unknown"
 }
 
 // replayFile, when set, makes a stream re-run exactly the case stored in that file.
